@@ -22,8 +22,8 @@ func main() {
 		p    avlh.Params
 	}
 	cfgs := []cfg{
-		{"distinct", avlh.Params{U: ev.Pick(r, 9, 12), N: ev.Pick(r, 9, 12), Distinct: true, Balance: true}},
-		{"dups", avlh.Params{U: 3, N: ev.Pick(r, 6, 8), Balance: true}},
+		{"distinct", avlh.Params{U: ev.Pick(r, 9, 12), N: ev.Pick(r, 9, 12), Distinct: true, Balance: true, Clone: true}},
+		{"dups", avlh.Params{U: 3, N: ev.Pick(r, 6, 8), Balance: true, Clone: true}},
 		{"distinct-struct-difference-comparator", avlh.Params{U: ev.Pick(r, 7, 9), N: ev.Pick(r, 7, 9), Distinct: true, Balance: true, Struct: true}},
 	}
 	states, trans, depth := 0, 0, 0
